@@ -65,4 +65,29 @@ theorem WF_applyOp (cfg : Cfg σ) (s : St σ) (op : Op) (hwf : WF cfg s) : WF cf
   | restart => exact WF_restart cfg s
   | tick dt => exact hwf
 
+
+theorem appendFail_wf (cfg : Cfg σ) (s : St σ) (r : Rec) (n : Nat) (fault : Nat → Bool) (hwf : WF cfg s) :
+    WF cfg (appendFail cfg s r n fault).2 := by
+  cases hpre : cfg.trig.pre with
+  | true =>
+    obtain ⟨_, _, _, hop, hno, herr, hyes⟩ := appendFail_pre_spec cfg s r n fault hwf hpre _ _
+      (appendFail cfg s r n fault).1 (appendFail cfg s r n fault).2 rfl rfl rfl
+    refine ⟨hop, ?_⟩
+    cases hans : (cfg.trig.fire s.tst (openView cfg s).length s.now).1 with
+    | no => exact Or.inr ⟨_, (hno hans).2.2.1⟩
+    | err => exact Or.inr ⟨_, (herr hans).2.2.1⟩
+    | yes =>
+      obtain ⟨d1, _, _, h⟩ := hyes hans
+      rcases h with ⟨_, _, _, _, ho, _⟩ | ⟨_, _, _, _, hw, _⟩
+      · exact Or.inr ⟨_, ho⟩
+      · exact Or.inl hw
+  | false =>
+    obtain ⟨_, ho, _, _, _, hop⟩ := appendFail_post_spec cfg s r n fault hwf hpre
+    exact ⟨hop, Or.inr ⟨_, ho⟩⟩
+
+theorem WF_applyX (cfg : Cfg σ) (s : St σ) (op : XOp) (hwf : WF cfg s) : WF cfg (applyX cfg s op).2 := by
+  cases op with
+  | op o => exact WF_applyOp cfg s o hwf
+  | appendFail r n f => exact appendFail_wf cfg s r n (faultFn f) hwf
+
 end Log4rs.Rolling
